@@ -37,12 +37,13 @@ type Store struct {
 	m    map[string]string
 	log  []entry
 
-	FailGet    map[int]bool    // ordinals of Get calls that fail
-	FailKeys   map[string]bool // Get of these keys fails (independent of the order in which concurrent readers arrive)
-	GetLimit   int             // > 0: Get calls beyond this ordinal fail (bounds traversals of a store made cyclic by corruption)
-	FailCommit map[int]bool    // ordinals of batch commits that fail (nothing applied)
-	Corrupt    func(k, v []byte) []byte
-	St         Stats
+	FailGet     map[int]bool    // ordinals of Get calls that fail
+	FailKeys    map[string]bool // Get of these keys fails (independent of the order in which concurrent readers arrive)
+	GetLimit    int             // > 0: Get calls beyond this ordinal fail (bounds traversals of a store made cyclic by corruption)
+	FailCommit  map[int]bool    // ordinals of batch commits that fail (nothing applied)
+	FailAllGets bool            // every Get fails (a transient read outage)
+	Corrupt     func(k, v []byte) []byte
+	St          Stats
 }
 
 func New() *Store { return &Store{base: map[string]string{}, m: map[string]string{}} }
@@ -55,7 +56,7 @@ func (s *Store) Get(k []byte) ([]byte, error) {
 		s.St.GetErrs++
 		return nil, ErrInjected
 	}
-	if s.FailGet[s.St.Gets] || s.FailKeys[string(k)] {
+	if s.FailAllGets || s.FailGet[s.St.Gets] || s.FailKeys[string(k)] {
 		s.St.GetErrs++
 		return nil, ErrInjected
 	}
